@@ -229,6 +229,7 @@ def c01(tier, seed):
                     8 if thorough else 4)
     _star_big(out, "C01", seed, thorough)
     out.add_vh(run_vh(["length-sweep", "--prop", "C01", "--seed", seed, "--max", 700 if thorough else 200], timeout=3000), only={"C01"})
+    out.add_vh(run_vh(["generator-reuse", "--seed", seed], timeout=3000), only={"C01"})
     return out
 
 
@@ -547,6 +548,9 @@ def c13(tier, seed):
     out.add_vh(run_vh(["dleq-replay", "--lines", lp, "--seed", seed, "--bases", 10 if thorough else 3], timeout=3000), only={"C13"})
     out.add_vh(run_vh(["nonce-check", "--n", 1024 if thorough else 64], timeout=3000), only={"C13"})
     out.add_vh(run_vh(["proof-complete", "--seed", seed, "--requests", 12 if thorough else 3], timeout=3000), only={"C13"})
+    rf = run_vh(["dleq-forge", "--seed", seed, "--n", 40 if thorough else 6], timeout=3000)
+    out.add_vh(rf, only={"C13"})
+    out.extra["forgery_positive_controls_ok"] = rf.get("counters", {}).get("positive_controls_ok", 0)
     return out
 
 
